@@ -35,14 +35,16 @@ def gen(rng, tier):
                 continue
             for point in ("first", "mid", "final"):
                 # ---- HTTP/1 transport pause
-                for release in ("resume", "reset"):
+                for release in ("resume", "reset", "protocol_error"):
                     cases.append(("h1.pause", size, chunk, point, release, 0))
                 # ---- HTTP/2
                 for kind in ("h2.stream0", "h2.conn0", "h2.pause"):
                     rels = {"h2.stream0": ["credit", "settings_grow", "rst", "eof", "reset"],
                             "h2.conn0": ["credit", "eof", "reset", "rst"],
-                            "h2.pause": ["resume", "reset"]}[kind]
+                            "h2.pause": ["resume", "reset", "goaway"]}[kind]
                     for release in rels:
+                        if release == "goaway" and point != "mid":
+                            continue  # paused from the very first byte the server never gets past its own SETTINGS: nothing to observe
                         for sib in (0, 2):
                             cases.append((kind, size, chunk, point, release, sib))
     # ---- END_STREAM needs no credit: a send that has nothing left to transmit must not wait for a window ------------
@@ -137,13 +139,17 @@ def _build(rng, n, kind, size, chunk, point, release, sib):
     truth = {"kind": kind, "size": size_eff, "chunk": chunk_eff, "point": point, "release": release, "tag": tag, "sib": []}
     if kind == "h1.pause":
         req = b"GET /t%d HTTP/1.1\r\nHost: h\r\n\r\n" % tag
+        if release == "protocol_error":
+            # the server itself decides to close while the send is parked: the request body (still being uploaded) turns out malformed
+            req = b"POST /t%d HTTP/1.1\r\nHost: h\r\nTransfer-Encoding: chunked\r\n\r\n5\r\nhello\r\n" % tag
+            script[0] = ["recv"]
         client = []
         if point == "mid":
             client += [["feed", req], ["settle"], ["pause"], ["trigger", "go"], ["settle"]]
         else:
             client += [["pause"], ["feed", req], ["settle"]]
         client += [["mark", "stall"]]
-        client += [["resume"]] if release == "resume" else [["reset"]]
+        client += {"resume": [["resume"]], "reset": [["reset"]], "protocol_error": [["feed", b"zz\r\nnot-a-chunk\r\n"]]}[release]
         client += [["settle"]]
         return {"family": "%s.%s.%s" % (kind, point, release), "backends": ["asyncio", "trio"],
                 "config": {"keep_alive_timeout": 5000}, "conn": {}, "apps": {"default": script, "by_tag": by_tag},
@@ -205,6 +211,8 @@ def _build(rng, n, kind, size, chunk, point, release, sib):
         client += [["reset"]]
     elif release == "resume":
         client += [["resume"]]
+    elif release == "goaway":
+        client += [["feed", fb.goaway(last=sid, code=0)]]
     client += [["settle"]]
     if sibs and kind == "h2.pause":
         pass
@@ -355,4 +363,4 @@ def check(case, obs, tally):
 
 def _rel_name(t):
     return {"eof": "client-eof", "rst": "rst-stream", "reset": "client-reset", "resume": "resume", "credit": "credit",
-            "settings_grow": "settings-growth"}[t["release"]]
+            "settings_grow": "settings-growth", "protocol_error": "server-closes-on-protocol-error", "goaway": "client-goaway"}[t["release"]]
